@@ -17,7 +17,6 @@ import cbor2
 from pycardano.plutus import CostModels
 from pycardano.serialization import default_encoder
 
-from ref import cbor_ref as R
 from ref import langviews_ref as LV
 from vlib import plutus_scen as P
 from vlib import scenario as S
@@ -233,7 +232,7 @@ def run(ctx):
                             "encodeLangViews (shortLex key order)"]
     for sc in corpus():
         evaluate(ctx, sc)
-    for _ in range(ctx.budget(210, 6000)):
+    for _ in range(ctx.budget(210, 3000)):
         evaluate(ctx, P.gen(ctx.rng))
     for _ in range(ctx.budget(400, 20000)):
         check_views(ctx, ctx.rng)
